@@ -90,7 +90,13 @@ def mutate(fr, mut):
             c["categories"] = sorted({v for v in c["values"] if v is not None}, key=str)
     elif kind == "unseen-observed":
         # the new level may be a falsy label (0 / empty string)
-        new = (0 if mut["pick"] % 2 else 99) if col == "G" else ("" if mut["pick"] % 2 else "NEW")
+        # ... or a value that only differs from a known level beyond what the levels' own dtype can hold: a longer
+        # string starting with a known level, a fractional number next to integer levels
+        lv_ = E.levels_of(fr, col)
+        if col == "G":
+            new = [99, 0, (float(lv_[0]) + 0.5 if lv_ else 2.5), 1000003][mut["pick"] % 4]
+        else:
+            new = ["NEW", "", (str(lv_[0]) + "zz" if lv_ else "azz"), "N"][mut["pick"] % 4]
         pos = {p % n for p in mut["rows"]} or {0}
         c["values"] = [new if i in pos else v for i, v in enumerate(c["values"])]
         if c["dtype"] == "category":
